@@ -90,9 +90,24 @@ def impl_eval(case):
                     'violation': f'IpmReader(file, encoding, iso_config, blocked=...) refused its documented arguments: {ex}'}
         got, exc = read_all(reader)
     else:
-        got, exc = read_all(mciipm.IpmReader(io.BytesIO(data), **kw))
+        # the caller's file object is read, the reader is dropped, and the SAME file object (rewound) is read once more
+        # by a new reader: the file is the caller's — still open, and it reads the same the second time
+        import gc
+        fobj = io.BytesIO(data)
+        got, exc = read_all(mciipm.IpmReader(fobj, **kw))
+        gc.collect()
+        again = None
+        if exc is None:
+            try:
+                fobj.seek(0)
+                again = read_all(mciipm.IpmReader(fobj, **kw))
+            except Exception as ex2:  # noqa
+                again = ([], ex2)
     why = None
-    if exc is not None:
+    if exc is None and not case.get('positional') and again is not None and (again[1] is not None or again[0] != got):
+        why = (f'a second reader over the same (rewound) file object ended with {render_end(again[1])} and '
+               f'{len(again[0])} messages; the first read gave {len(got)}')
+    elif exc is not None:
         why = f'reading the written file ended with {render_end(exc)}'
     elif len(got) != len(msgs):
         why = f'wrote {len(msgs)} messages, read {len(got)}'
